@@ -212,7 +212,9 @@ def op_term(op, st):
     if k == 'metaclear':
         return "OpMetaClear"
     if k == 'metaop':
-        return "OpMetaSet" if op['method'] in ('update', 'setitem') else "OpMetaPop"
+        if op['method'] in ('update', 'setitem') or st.get('nkeys_before', 1) > 1:
+            return "OpMetaSet"       # the metadata stay non-empty: the file is rewritten
+        return "OpMetaPop"
     raise ValueError(k)
 
 
@@ -467,6 +469,8 @@ def mk_op(letter, rng, nt, bo, tail):
         return dict(op='metaset', value={rng.choice(['k1', 'k2']): rng.randrange(100)})
     if letter == 'mc':
         return dict(op='metaclear')
+    if letter == 'mpi':
+        return dict(op='metaop', method='popitem')
     raise ValueError(letter)
 
 
